@@ -734,13 +734,6 @@ func (v *Protocol) WritePacket(pkt Packet, streamID int) (err error) {
 }
 
 func (v *Protocol) onPacketWriten(m *Message, pkt Packet) (err error) {
-	switch pkt := pkt.(type) {
-	case *SetChunkSize:
-		// The peer reads the following messages with the chunk size we
-		// announced, so write them with it.
-		v.output.opt.chunkSize = pkt.ChunkSize
-	}
-
 	return
 }
 
@@ -820,6 +813,13 @@ func (v *Protocol) WriteMessage(m *Message) (err error) {
 	// TODO: FIXME: Use writev to write for high performance.
 	if err = v.w.Flush(); err != nil {
 		return oe.Wrapf(err, "flush writer")
+	}
+
+	// The peer reads the following messages with the chunk size announced
+	// by this message, so write them with it. A message is a Set Chunk Size
+	// by its type, whether it is made from a packet or from bytes.
+	if m.MessageType == MessageTypeSetChunkSize && len(m.Payload) >= 4 {
+		v.output.opt.chunkSize = binary.BigEndian.Uint32(m.Payload)
 	}
 
 	return
